@@ -1,6 +1,8 @@
 """Boundary recorder for HdlcFrameReader: feed chunks, record what read() returns."""
 from __future__ import annotations
 
+import copy
+
 from vf.mon import clock, containers, steps
 from vf.ref import hdlc_ref
 
@@ -124,6 +126,14 @@ def run(cfg, chunks, ctx=None, reader=None, states: set | None = None):
             continue
         again = observe(f)
         o["changed_later"] = any(again[k] != o[k] for k in ("bytes", "valid", "payload"))
+        if not o["changed_later"] and _runs % 4 == 1 and (len(out) < 8 or id(f) % 4 == 0):
+            # a duplicate of the message (an application may hand a copy to another thread / keep one in a cache) answers like the message
+            try:
+                dup = observe(copy.deepcopy(f))
+            except Exception:
+                dup = None  # duplication not supported: not judged
+            if dup is not None:
+                o["changed_later"] = any(dup[k] != o[k] for k in ("bytes", "valid", "payload"))
     return out, err
 
 
